@@ -10,6 +10,7 @@ use vmodel::*;
 
 mod boxed;
 mod cs;
+mod extra;
 mod fixed;
 mod prim;
 mod serde_checks;
@@ -295,5 +296,6 @@ fn subchecks(ctx: &Ctx) -> Vec<SubCheck> {
     serde_checks::push(&mut v, ctx);
     cs::push(&mut v, ctx);
     boxed::push(&mut v, ctx);
+    v.extend(extra::subchecks(ctx));
     v
 }
